@@ -176,6 +176,20 @@ class DurativeActionToProcesses(engines.engine.Engine, CompilerMixin):
         new_kind.set_time("EVENTS")
         new_kind.set_fluents_type("INT_FLUENTS")
         new_kind.set_fluents_type("REAL_FLUENTS")
+        # the clocks, locks and the counter of running actions the compilation adds
+        new_kind.set_problem_type("SIMPLE_NUMERIC_PLANNING")
+        if (
+            problem_kind.has_static_fluents_in_durations()
+            or problem_kind.has_fluents_in_durations()
+        ):
+            # the clock is compared with the duration expression
+            new_kind.set_problem_type("GENERAL_NUMERIC_PLANNING")
+        new_kind.set_numbers("BOUNDED_TYPES")
+        new_kind.set_conditions_kind("NEGATIVE_CONDITIONS")
+        new_kind.set_conditions_kind("EQUALITIES")
+        new_kind.set_effects_kind("INCREASE_EFFECTS")
+        new_kind.set_effects_kind("DECREASE_EFFECTS")
+        new_kind.set_effects_kind("INCREASE_CONTINUOUS_EFFECTS")
         return new_kind
 
     def _compile(
